@@ -475,3 +475,100 @@ Definition check_variant (flatten eager : bool) (cs : list cls * list access * l
   | _, _ => false
   end.
 Definition check_media := check_variant current_flatten current_eager.
+
+(* ====================================================================================================
+   Round-2 additions (definitions only; names in Media/Names.v; lemmas in Media/Forms.v, Media/Dups.v, Media/Mixins.v, Media/Anchors.v)
+   ==================================================================================================== *)
+
+(* `getattr(media_input, "extend", True)`: what a class without own Media (or a Media without `extend`) selects *)
+Definition default_extend : extend := ExtAll.
+Definition select_by (e : extend) (c : cls) : list nat :=
+  match e with ExtAll => c_bases c | ExtNone => [] | ExtList l => l end.
+
+(* ---------- Media.js / Media.css as WRITTEN in the class body, and `_normalize_media` ----------
+   The str / bytes / list / tuple / dict forms are turned into `js : list`, `css : dict of lists` when a COMPONENT
+   class is created.  Empty values of the list / str forms declare no file (the js side always did; the css side
+   since the fix for `c16-empty-css-list` - before it `css = []` stayed a list and `.media` raised AttributeError
+   inside django.forms.Media).  Plain (non-component) classes are not normalised by the library: only the normal
+   forms are meaningful there (`raw_ok`). *)
+Inductive rawfiles :=
+| RAbsent                      (* attribute not set, or None *)
+| RStr (f : option N)          (* "x.js" / b"x.js"; None = the empty string "" / b"" *)
+| RList (l : list N).          (* list / tuple, possibly empty *)
+Inductive dictval := DStr (f : N) | DList (l : list N).
+Inductive rawcss := CFiles (r : rawfiles) | CDict (d : list (N * dictval)).
+Record rawmedia := RawMedia { r_ext : extend; r_js : rawfiles; r_css : rawcss }.
+
+Definition css_all : N := 1.                      (* the medium "all" (harness KEYS[1]) *)
+
+Definition norm_files (r : rawfiles) : list N :=
+  match r with RAbsent => [] | RStr None => [] | RStr (Some f) => [f] | RList l => l end.
+Definition norm_dictval (v : dictval) : list N := match v with DStr f => [f] | DList l => l end.
+Definition norm_css (c : rawcss) : list (N * list N) :=
+  match c with
+  | CFiles r => match norm_files r with [] => [] | l => [(css_all, l)] end
+  | CDict d => map (fun kv => (fst kv, norm_dictval (snd kv))) d
+  end.
+Definition norm_media (m : rawmedia) : mdecl :=
+  MDecl (r_ext m) ((0%N, norm_files (r_js m)) :: norm_css (r_css m)).
+
+(* a class as written: everything but Media in `cls` (its c_media is ignored), plus the raw Media *)
+Notation rcls := (cls * option rawmedia)%type (only parsing).
+Definition norm_cls (rc : cls * option rawmedia) : cls :=
+  let c := fst rc in
+  Cls (c_bases c) (c_comp c) (option_map norm_media (snd rc)) (c_rel c) (c_tpl c) (c_js c) (c_css c).
+
+Definition normal_files (r : rawfiles) : bool := match r with RAbsent | RList _ => true | RStr _ => false end.
+Definition normal_form (m : rawmedia) : bool :=
+  normal_files (r_js m) &&
+  match r_css m with
+  | CFiles RAbsent => true
+  | CFiles _ => false
+  | CDict d => forallb (fun kv => match snd kv with DList _ => true | DStr _ => false end) d
+  end.
+Definition css_keys_ok (m : rawmedia) : bool :=
+  match r_css m with
+  | CFiles _ => true
+  | CDict d => forallb (fun kv => negb (N.eqb (fst kv) 0)) d
+  end.
+Definition raw_ok (rc : cls * option rawmedia) : bool :=
+  match snd rc with
+  | None => true
+  | Some m => css_keys_ok m && (c_comp (fst rc) || normal_form m)
+  end.
+
+(* ---------- duplicates inside one declared list ----------
+   Media.merge skips an edge between equal neighbours (`if head != item`), so ADJACENT repeats are harmless;
+   a repeat with something in between (a, b, a) is a cycle a -> b -> a: the list is inconsistent with itself. *)
+Fixpoint squash (l : list N) : list N :=
+  match l with
+  | a :: r => match r with
+              | b :: _ => if N.eqb a b then squash r else a :: squash r
+              | [] => [a]
+              end
+  | [] => []
+  end.
+Definition wconsistent (ls : list (list N)) : Prop :=
+  exists r, NoDup r /\ forall l, In l ls -> subseqb (squash l) r = true.
+
+(* ---------- plain (non-component) classes of the MRO and the template / js / css pairs ----------
+   `nearest_any`: the nearest class of ANY kind that defines either member (the literal reading of the statement);
+   `nearest_defining` (above, what the code does) only looks at component classes. *)
+Fixpoint nearest_any (t : list cls) (p : pairkind) (m : list nat) : option cls :=
+  match m with
+  | [] => None
+  | b :: r => match nth_error t b with
+              | Some c => if negb (pair_empty (get_pair p c)) then Some c else nearest_any t p r
+              | None => nearest_any t p r
+              end
+  end.
+Definition plain_definer (t : list cls) (p : pairkind) (b : nat) : bool :=
+  match nth_error t b with
+  | Some c => negb (c_comp c) && negb (pair_empty (get_pair p c))
+  | None => false
+  end.
+
+(* ---------- correspondence on the raw forms ---------- *)
+Definition check_raw (cs : list (cls * option rawmedia) * list access * list N * outcome) : bool :=
+  let '(rt, h, keys, out) := cs in
+  forallb raw_ok rt && check_media (map norm_cls rt, h, keys, out).
